@@ -1,8 +1,8 @@
 SPECIFICATION Spec
 CONSTANTS
   Part = "slice"
-  MaxLen = 5
-  VMag = 6
+  MaxLen = 4
+  VMag = 4
   Mixed = FALSE
   Dump = TRUE
 INVARIANT ImplAgreesOffHazards
